@@ -482,7 +482,10 @@ class Check:
             "wall_s": round(wall, 2),
             "violations": len(new_viol) + (1 if (self.broken and not new_viol) else 0),
         }
-        open(os.path.join(VERIF, "evidence", f"{self.pid}.json"), "w").write(json.dumps(ev, indent=1, default=str))
+        # evidence describes /repo itself: a run against another tree (ACRYO_REPO, used to evaluate seeded changes) writes elsewhere
+        evdir = os.path.join(VERIF, "evidence") if os.path.realpath(REPO) == "/repo" else os.path.join(WORKROOT, "evidence_other_tree")
+        os.makedirs(evdir, exist_ok=True)
+        open(os.path.join(evdir, f"{self.pid}.json"), "w").write(json.dumps(ev, indent=1, default=str))
         for ln in lines:
             print(ln, flush=True)
         print(f"[{self.pid}] done tier={self.tier} seed={self.seed} wall={wall:.1f}s obligations={self.obligations} "
